@@ -4,7 +4,7 @@
 From Coq Require Import ZArith List Lia.
 From TV Require Import Base.Int32 Ring.NegaRing Model.Numeric Model.Lwe Model.Poly Model.Tlwe Model.Tgsw Model.Bootstrap
   Proofs.Numeric Proofs.Tlwe Proofs.Tgsw Proofs.BlindRotate Proofs.Bootstrap Proofs.BootPhase Proofs.Drift Proofs.Digits Proofs.KeySwitch.
-From TV Require Import Base.Sums Model.KeySwitch.
+From TV Require Import Base.Sums Model.KeySwitch Model.Gates Model.Encrypt Model.Decomp Proofs.Decomp Proofs.BootKey Proofs.KeyGen.
 Import ListNotations.
 Local Open Scope Z_scope.
 
@@ -91,6 +91,18 @@ Theorem C04_modswitch_drift : forall (N : nat) (S : Z) s x, (0 < N)%nat -> inDom
   exists d, 2 * Z.abs d <= (1 + Drift.l1 s) * S /\ eqm32 (rot_exponent N s x * S) (lwe_phase s x + d).
 Proof. exact rot_exponent_drift. Qed.
 Print Assumptions C04_modswitch_drift.
+
+(* under a bootstrapping key GENERATED from a draw stream (C07) whose converted Gaussian draws are at most eta: for every input sample
+   and every mu the bootstrapping without key switch returns +mu iff the rounded phase is in [0,N), else -mu, up to n * beta(eta) *)
+Theorem C04_generated_key_bootstrap_woKS : forall N, (0 < N)%nat -> inDomain (2 * Z.of_nat N) -> forall key k, wf_tkey N k key ->
+  Forall (Forall (fun x => x = 0 \/ x = 1)) key -> forall l B, valid_layout l B ->
+  forall eta lk ds bk r mu x, 0 <= eta -> bounded eta ds -> Forall (fun s => s = 0 \/ s = 1) lk ->
+  bk_rows l B key N lk ds = Some (bk, r) -> length (fst x) = length lk ->
+  exists smp e0, bootstrap_woKS true l B k N bk mu x = Some smp /\ length (fst smp) = (k * N)%nat /\
+    eqm32 (lwe_phase (tlwe_extract_key key) smp) ((if rot_exponent N lk x <? Z.of_nat N then mu else w32 (- mu)) + e0) /\
+    Z.abs e0 <= Z.of_nat (length lk) * beta N k l B eta.
+Proof. exact generated_key_bootstrap_woKS. Qed.
+Print Assumptions C04_generated_key_bootstrap_woKS.
 
 Example C04_nonvacuous :
   rotated_testvect [10;20;30;40] 5 = Some [-20;-30;-40;10] /\ anti [10;20;30;40] 5 = -20 /\ anti [10;20;30;40] 3 = 40 /\
